@@ -215,3 +215,261 @@ theorem unquote_jsonEncode (html : Bool) (s : Bytes) (h : validUtf8 s = true) :
   exact this
 
 end Martian.InvocationStr
+
+/-! ### the JSON decoder and the MRO unquoter agree on valid UTF-8 tokens -/
+namespace Martian.InvocationStr
+open Martian.Lexer (Bytes unqLoop unquoteBytes goEscape surrPair encodeRune hexByte hexVal isOct isDigit runeError)
+open Martian.Format (unq_plain unq_esc validFrom_succ)
+open Martian.ShellQuote (runeWidth validFrom validUtf8 runeWidth_cont ge80_not_special)
+
+theorem encodeRune_surr (r : Nat) (h1 : 0xD800 ≤ r) (h2 : r < 0xE000) : encodeRune r = runeError := by
+  have a : ¬ r < 0x80 := by omega
+  have b : ¬ r < 0x800 := by omega
+  have c : (0xD800 ≤ r ∧ r ≤ 0xDFFF) := ⟨h1, by omega⟩
+  simp [encodeRune, a, b, c]
+
+theorem jsonSurr_eq (r : Nat) (rest : Bytes) (h1 : 0xD800 ≤ r) (h2 : r < 0xE000) :
+    jsonSurr r rest = surrPair r rest := by
+  have he := encodeRune_surr r h1 h2
+  have hc : (decide (0xD800 ≤ r) && decide (r < 0xE000)) = true := by simp [h1, h2]
+  unfold jsonSurr surrPair
+  simp only [hc, ↓reduceIte, he]
+  rcases rest with _ | ⟨c, _ | ⟨d, _ | ⟨g0, _ | ⟨g1, _ | ⟨g2, _ | ⟨g3, rest2⟩⟩⟩⟩⟩⟩ <;> rfl
+
+theorem jsonEscape_go (c2 : UInt8) (v out rest : Bytes) (h : jsonEscape c2 v = some (out, rest)) :
+    goEscape c2 v = some (out, rest) := by
+  unfold jsonEscape at h
+  split at h
+  · rename_i hc
+    simp only [Bool.or_eq_true, beq_iff_eq] at hc
+    rcases hc with (rfl | rfl) | rfl <;> (rw [← h]; simp [goEscape, isOct])
+  · split at h
+    · rename_i hc; have := eq_of_beq hc; subst this; rw [← h]; simp [goEscape]
+    · split at h
+      · rename_i hc; have := eq_of_beq hc; subst this; rw [← h]; simp [goEscape]
+      · split at h
+        · rename_i hc; have := eq_of_beq hc; subst this; rw [← h]; simp [goEscape]
+        · split at h
+          · rename_i hc; have := eq_of_beq hc; subst this; rw [← h]; simp [goEscape]
+          · split at h
+            · rename_i hc; have := eq_of_beq hc; subst this; rw [← h]; simp [goEscape]
+            · split at h
+              · rename_i hc; have := eq_of_beq hc; subst this
+                rcases v with _ | ⟨h0, _ | ⟨h1, _ | ⟨h2, _ | ⟨h3, rest'⟩⟩⟩⟩ <;>
+                  simp only [getu4] at h <;> try cases h
+                cases hlo : hexByte h2 h3 with
+                | none => simp [hlo] at h
+                | some lo =>
+                  cases hhi : hexByte h0 h1 with
+                  | none => simp [hlo, hhi] at h
+                  | some hi =>
+                    simp only [hlo, hhi] at h
+                    have hgo : goEscape 0x75 (h0 :: h1 :: h2 :: h3 :: rest') = surrPair (lo + hi * 256) rest' := by
+                      simp [goEscape, hlo, hhi]
+                    rw [hgo]
+                    by_cases hs : (decide (0xD800 ≤ lo + hi * 256) && decide (lo + hi * 256 < 0xE000)) = true
+                    · simp only [hs, ↓reduceIte] at h
+                      simp only [Bool.and_eq_true, decide_eq_true_eq] at hs
+                      rw [← jsonSurr_eq _ _ hs.1 hs.2]; exact h
+                    · simp only [hs, Bool.false_eq_true, ↓reduceIte] at h
+                      rw [← h]; unfold surrPair; simp only [hs, Bool.false_eq_true, ↓reduceIte]
+              · cases h
+
+
+theorem hexVal_ascii (c : UInt8) (n : Nat) (h : hexVal c = some n) : c < 0x80 := by
+  unfold hexVal isDigit at h
+  rw [UInt8.lt_iff_toNat_lt]
+  split at h
+  · rename_i hc
+    simp only [Bool.and_eq_true, decide_eq_true_eq, UInt8.le_iff_toNat_le] at hc
+    have := hc.2; simp at this ⊢; omega
+  · split at h
+    · rename_i hc
+      simp only [Bool.and_eq_true, decide_eq_true_eq, UInt8.le_iff_toNat_le] at hc
+      have := hc.2; simp at this ⊢; omega
+    · split at h
+      · rename_i hc
+        simp only [Bool.and_eq_true, decide_eq_true_eq, UInt8.le_iff_toNat_le] at hc
+        have := hc.2; simp at this ⊢; omega
+      · cases h
+
+theorem hexByte_ascii (a b : UInt8) (n : Nat) (h : hexByte a b = some n) : a < 0x80 ∧ b < 0x80 := by
+  unfold hexByte at h
+  cases ha : hexVal a with
+  | none => simp [ha] at h
+  | some x =>
+    cases hb : hexVal b with
+    | none => simp [ha, hb] at h
+    | some y => exact ⟨hexVal_ascii a x ha, hexVal_ascii b y hb⟩
+
+theorem validFrom_ascii (b : UInt8) (r : Bytes) (hb : b < 0x80) :
+    validFrom (b :: r) 0 = validFrom r 0 := by
+  simp [validFrom, runeWidth, hb]
+
+theorem jsonSurr_valid (r : Nat) (v out rest : Bytes) (h : jsonSurr r v = some (out, rest)) :
+    validFrom v 0 = validFrom rest 0 := by
+  unfold jsonSurr at h
+  split at h
+  · rename_i c d g0 g1 g2 g3 rest2
+    split at h
+    · rename_i hcd
+      simp only [Bool.and_eq_true, beq_iff_eq] at hcd
+      obtain ⟨rfl, rfl⟩ := hcd
+      split at h
+      · rename_i lo2 hi2 hlo hhi
+        have a1 := hexByte_ascii _ _ _ hlo
+        have a2 := hexByte_ascii _ _ _ hhi
+        dsimp only at h
+        split at h
+        · simp only [Option.some.injEq, Prod.mk.injEq] at h; obtain ⟨_, rfl⟩ := h
+          rw [validFrom_ascii 0x5C _ (by decide), validFrom_ascii 0x75 _ (by decide),
+            validFrom_ascii _ _ a2.1, validFrom_ascii _ _ a2.2,
+            validFrom_ascii _ _ a1.1, validFrom_ascii _ _ a1.2]
+        · simp only [Option.some.injEq, Prod.mk.injEq] at h; obtain ⟨_, rfl⟩ := h; rfl
+      · cases h
+    · simp only [Option.some.injEq, Prod.mk.injEq] at h; obtain ⟨_, rfl⟩ := h; rfl
+  · simp only [Option.some.injEq, Prod.mk.injEq] at h; obtain ⟨_, rfl⟩ := h; rfl
+
+theorem jsonEscape_cases (c2 : UInt8) (v out rest : Bytes) (h : jsonEscape c2 v = some (out, rest)) :
+    c2 < 0x80 ∧ (rest = v ∨ ∃ r rest', getu4 v = some (r, rest') ∧
+      (jsonSurr r rest' = some (out, rest) ∨ rest = rest')) := by
+  unfold jsonEscape at h
+  split at h
+  · rename_i hc
+    simp only [Bool.or_eq_true, beq_iff_eq] at hc
+    injection h with h; injection h with _ h
+    rcases hc with (rfl | rfl) | rfl <;> exact ⟨by decide, Or.inl h.symm⟩
+  · split at h
+    · rename_i hc; have := eq_of_beq hc; subst this
+      injection h with h; injection h with _ h; exact ⟨by decide, Or.inl h.symm⟩
+    · split at h
+      · rename_i hc; have := eq_of_beq hc; subst this
+        injection h with h; injection h with _ h; exact ⟨by decide, Or.inl h.symm⟩
+      · split at h
+        · rename_i hc; have := eq_of_beq hc; subst this
+          injection h with h; injection h with _ h; exact ⟨by decide, Or.inl h.symm⟩
+        · split at h
+          · rename_i hc; have := eq_of_beq hc; subst this
+            injection h with h; injection h with _ h; exact ⟨by decide, Or.inl h.symm⟩
+          · split at h
+            · rename_i hc; have := eq_of_beq hc; subst this
+              injection h with h; injection h with _ h; exact ⟨by decide, Or.inl h.symm⟩
+            · split at h
+              · rename_i hc; have := eq_of_beq hc; subst this
+                refine ⟨by decide, Or.inr ?_⟩
+                cases hg : getu4 v with
+                | none => simp [hg] at h
+                | some p =>
+                  obtain ⟨r, rest'⟩ := p
+                  simp only [hg] at h
+                  refine ⟨r, rest', rfl, ?_⟩
+                  split at h
+                  · exact Or.inl h
+                  · injection h with h; injection h with _ h; exact Or.inr h.symm
+              · cases h
+
+theorem getu4_valid (v rest : Bytes) (r : Nat) (hg : getu4 v = some (r, rest)) :
+    validFrom v 0 = validFrom rest 0 := by
+  rcases v with _ | ⟨h0, _ | ⟨h1, _ | ⟨h2, _ | ⟨h3, v'⟩⟩⟩⟩ <;> simp only [getu4] at hg <;> try cases hg
+  cases hlo : hexByte h2 h3 with
+  | none => simp [hlo] at hg
+  | some lo =>
+    cases hhi : hexByte h0 h1 with
+    | none => simp [hlo, hhi] at hg
+    | some hi =>
+      simp only [hlo, hhi, Option.some.injEq, Prod.mk.injEq] at hg
+      obtain ⟨_, rfl⟩ := hg
+      have a1 := hexByte_ascii _ _ _ hlo
+      have a2 := hexByte_ascii _ _ _ hhi
+      rw [validFrom_ascii _ _ a2.1, validFrom_ascii _ _ a2.2,
+          validFrom_ascii _ _ a1.1, validFrom_ascii _ _ a1.2]
+
+theorem jsonEscape_valid (c2 : UInt8) (v out rest : Bytes) (h : jsonEscape c2 v = some (out, rest)) :
+    validFrom v 0 = validFrom rest 0 := by
+  obtain ⟨_, hc⟩ := jsonEscape_cases c2 v out rest h
+  rcases hc with rfl | ⟨r, rest', hg, hs | rfl⟩
+  · rfl
+  · rw [getu4_valid v rest' r hg]; exact jsonSurr_valid _ _ _ _ hs
+  · exact getu4_valid v rest r hg
+
+/-- On a token body that is valid UTF-8 the MRO unquoter returns whatever the
+JSON decoder returns. -/
+theorem dec_agree : ∀ (g : Nat) (t : Bytes) (k : Nat) (s : Bytes),
+    validFrom t k = true → (∀ x ∈ t.take k, ¬ x < 0x80) →
+    jsonDecLoop g t k = some s → unqLoop g t = some s := by
+  intro g
+  induction g with
+  | zero => intro t k s _ _ h; simp [jsonDecLoop] at h
+  | succ f ih =>
+    intro t k s hv hk h
+    cases t with
+    | nil => simp only [jsonDecLoop, Option.some.injEq] at h; subst h; simp [unqLoop]
+    | cons c r =>
+      cases k with
+      | succ k =>
+        simp only [jsonDecLoop, Option.map_eq_some_iff] at h
+        obtain ⟨s', hs', rfl⟩ := h
+        have hc : ¬ c < 0x80 := hk c (by simp)
+        obtain ⟨_, _, _, h5c⟩ := ge80_not_special c hc
+        rw [validFrom_succ] at hv
+        rw [unq_plain f c r h5c, ih r k s' hv (fun x hx => hk x (by simp [List.take_succ_cons, hx])) hs']
+        rfl
+      | zero =>
+        simp only [jsonDecLoop] at h
+        by_cases h5c : (c == 0x5C) = true
+        · simp only [h5c, ↓reduceIte] at h
+          have := eq_of_beq h5c; subst this
+          cases r with
+          | nil => cases h
+          | cons c2 r2 =>
+            simp only at h
+            cases he : jsonEscape c2 r2 with
+            | none => simp [he] at h
+            | some p =>
+              obtain ⟨out, rest⟩ := p
+              simp only [he, Option.map_eq_some_iff] at h
+              obtain ⟨s', hs', rfl⟩ := h
+              have hv2 : validFrom rest 0 = true := by
+                rw [← jsonEscape_valid c2 r2 out rest he]
+                rw [validFrom_ascii 0x5C _ (by decide)] at hv
+                have hc2 : c2 < 0x80 := (jsonEscape_cases c2 r2 out rest he).1
+                rw [validFrom_ascii _ _ hc2] at hv
+                exact hv
+              rw [unq_esc f c2 r2 rest out (jsonEscape_go c2 r2 out rest he),
+                ih rest 0 s' hv2 (by simp) hs']
+              rfl
+        · have h5c' : (c == 0x5C) = false := by simpa using h5c
+          simp only [h5c', Bool.false_eq_true, ↓reduceIte] at h
+          split at h
+          · cases h
+          · split at h
+            · rename_i hlt
+              simp only [Option.map_eq_some_iff] at h
+              obtain ⟨s', hs', rfl⟩ := h
+              rw [validFrom_ascii _ _ hlt] at hv
+              rw [unq_plain f c r h5c', ih r 0 s' hv (by simp) hs']
+              rfl
+            · rename_i hge
+              simp only [validFrom] at hv
+              cases hw : runeWidth (c :: r) with
+              | none => simp [hw] at hv
+              | some w =>
+                simp only [hw, Option.map_eq_some_iff] at h hv
+                obtain ⟨s', hs', rfl⟩ := h
+                rw [unq_plain f c r h5c', ih r (w - 1) s' hv (runeWidth_cont c r w hge hw) hs']
+                rfl
+
+/-- Whatever writer produced the token: if it is valid UTF-8 and the JSON
+decoder (`encoding/json`) reads the string `s` from it, then the MRO path
+(`unquoteBytes`) reads the same `s` – every JSON escape form, surrogate pairs,
+lone surrogates (U+FFFD in both), upper- and lower-case hex. -/
+theorem unquote_of_jsonDecode (body s : Bytes) (hv : validUtf8 body = true)
+    (h : jsonDecodeString (0x22 :: (body ++ [0x22])) = some s) :
+    unquoteBytes (0x22 :: (body ++ [0x22])) = some s := by
+  simp only [jsonDecodeString, List.reverse_append, List.reverse_cons, List.reverse_nil,
+    List.nil_append, List.singleton_append, List.reverse_reverse, List.length_reverse] at h
+  simp only [unquoteBytes, List.reverse_append, List.reverse_cons, List.reverse_nil,
+    List.nil_append, List.singleton_append, List.reverse_reverse, List.length_reverse]
+  exact dec_agree _ _ 0 s hv (by simp) h
+
+end Martian.InvocationStr
